@@ -69,6 +69,8 @@ type FuncContract struct {
 	ParamNames []string // for trusted contracts on functions without source: names for parameters
 	Iterates *IterSpec
 	CallInv  map[string][]*Clause
+	CallAssert map[string][]*Clause // "call Name#k assert e": checked in the state just before that call
+	CallWitness map[string][]LetDef // "call Name#k witness n = e": value of e just before that call, reported with counterexamples
 }
 
 type LetDef struct {
@@ -235,7 +237,7 @@ func (cs *Contracts) LoadContractFile(path, pkgPath string) error {
 				return fail(l.line, "func: missing name")
 			}
 			cur = &FuncContract{Written: fields[0], Key: canonKey(fields[0], pkgPath), Pkg: pkgPath,
-				Loops: map[int][]*Clause{}, Waive: map[string]bool{}, File: path, Line: l.line, CallInv: map[string][]*Clause{},
+				Loops: map[int][]*Clause{}, Waive: map[string]bool{}, File: path, Line: l.line, CallInv: map[string][]*Clause{}, CallAssert: map[string][]*Clause{}, CallWitness: map[string][]LetDef{},
 				Trusted: pkgPath == "trusted"}
 			for i := 1; i < len(fields); i++ {
 				switch fields[i] {
@@ -414,14 +416,30 @@ func (cs *Contracts) LoadContractFile(path, pkgPath string) error {
 				return fail(l.line, "call outside func")
 			}
 			fs := strings.SplitN(rest, " ", 3)
-			if len(fs) < 3 || fs[1] != "invariant" {
-				return fail(l.line, "call: want 'call Name#k invariant expr'")
+			if len(fs) >= 3 && fs[1] == "witness" {
+				i := strings.Index(fs[2], "=")
+				if i < 0 {
+					return fail(l.line, "call witness: missing =")
+				}
+				e, err := ParseExpr(fs[2][i+1:])
+				if err != nil {
+					return fail(l.line, "%v", err)
+				}
+				cur.CallWitness[fs[0]] = append(cur.CallWitness[fs[0]], LetDef{strings.TrimSpace(fs[2][:i]), e})
+				continue
 			}
-			c, err := mk("invariant", fs[2])
+			if len(fs) < 3 || (fs[1] != "invariant" && fs[1] != "assert") {
+				return fail(l.line, "call: want 'call Name#k invariant|assert|witness expr'")
+			}
+			c, err := mk(fs[1], fs[2])
 			if err != nil {
 				return err
 			}
-			cur.CallInv[fs[0]] = append(cur.CallInv[fs[0]], c)
+			if fs[1] == "assert" {
+				cur.CallAssert[fs[0]] = append(cur.CallAssert[fs[0]], c)
+			} else {
+				cur.CallInv[fs[0]] = append(cur.CallInv[fs[0]], c)
+			}
 		default:
 			return fail(l.line, "unknown contract keyword %q", word)
 		}
